@@ -1,5 +1,10 @@
 use serde::{Deserialize, Serialize};
+#[cfg(not(pricelevel_verif))]
 use std::sync::atomic::{AtomicU64, Ordering};
+#[cfg(pricelevel_verif)]
+use crate::verif_hooks::AtomicU64;
+#[cfg(pricelevel_verif)]
+use std::sync::atomic::Ordering;
 use uuid::Uuid;
 
 /// # UuidGenerator
